@@ -459,3 +459,32 @@ def cs_expected(files, func, containing, relpath):
         return None
     d = "/".join(p.split("/")[:-1])
     return cs_value(d)
+
+
+# ---------------------------------------------------------------- file contents that look like text-layer markers
+# For the real-file-system reads of incbin / incbinstr / inchexstr: byte patterns that a text layer might
+# interpret (byte-order marks, line ends, NUL, DOS EOF, invalid UTF-8) at the start / middle / end of the file.
+# The oracle is the bytes on disk.
+TEXT_MARKERS = [b"\xef\xbb\xbf", b"\xff\xfe", b"\xfe\xff", b"\r\n", b"\r", b"\n", b"\x00", b"\x1a", b"\xc3\x28", b"\x80",
+                b"\xf0\x9f\x98\x80", b"\xef\xbb", b"\xff\xfe\x00\x00"]
+
+
+def marker_contents(base):
+    out, seen = [], set()
+    h = len(base) // 2
+    for m in TEXT_MARKERS:
+        for c in (m + base, base[:h] + m + base[h:], base + m, m, m + m + base, m + base + m):
+            if c not in seen:
+                seen.add(c)
+                out.append(c)
+    return out
+
+
+def marker_args(n):
+    cand = [(), (0,), (1,), (3,), (0, n), (0, n - 1), (1, n - 1), (3, n - 3), (n - 1, 1), (0, n + 1), (n,), (2, 2), (0, 3), (3, 1),
+            (n - 3, 3), (0, 0)]
+    out = []
+    for a in cand:
+        if all(x >= 0 for x in a) and a not in out:
+            out.append(a)
+    return out
